@@ -220,6 +220,9 @@ def generate(run_index, seed, tier):
         sc["header"] = g.chance(0.5)
         # an Excel workbook instead of a TSV file in half of the runs (needs a header row; empty cells are really empty)
         sc["xlsx"] = sc["header"] and g.chance(0.6)
+        if sc["xlsx"] and len(rows) >= 2 and g.chance(0.4):
+            k = g.randrange(0, len(rows) - 1)
+            rows[k] = ["" for _ in rows[k]]          # an entirely empty worksheet row in the middle
     perms = []
     for _ in range(g.randint(1, 3)):
         how = g.pick(["swap", "rotate", "shuffle"])
@@ -339,6 +342,11 @@ def execute(sc, script=None):
         violations.append(Violation(clause, detail.replace(W["base"], "<scratch>"), sig).record(PROP))
 
     sc = copy.deepcopy(sc)
+    if sc.get("xlsx"):
+        # trailing rows whose cells are all empty do not exist in a saved workbook
+        while len(sc["rows"]) > 1 and all(c.strip() == "" for c in sc["rows"][-1]):
+            sc["rows"].pop()
+            sc["perms"] = []
     cols = sc["columns"]
     # Delay/Duration spellings that string validation does not accept are replaced by plain tags (the property
     # quantifies over accepted spellings only)
@@ -513,9 +521,25 @@ def _check_rows(W, sc, inp, issues, header_adj, viol, probe):
         viol("never-raises", "series_a raised %s: %s" % (type(e).__name__, str(e)[:200]), "series_a-raises")
         return
     if len(texts) != len(sc["rows"]):
+        if sc.get("xlsx"):
+            # a worksheet row is a row: if the reader drops one, every label below it is off
+            viol("row-labels", "the worksheet has %d data rows but the input object holds %d: rows were dropped, labels below them "
+                 "no longer name the file row" % (len(sc["rows"]), len(texts)), "worksheet-rows-dropped")
+            return
         probe("reader_skipped_blank_lines")       # pandas drops lines made of blanks only: row bookkeeping not judged
         return
-    distinct = "onset" in cols and not sc.get("ties")
+    # rows on the time line are judged one by one when no two of them share a time; rows without a numeric onset are not on
+    # the time line at all (they are judged on their own further down)
+    distinct = "onset" in cols
+    if distinct:
+        oi_ = cols.index("onset")
+        nums = []
+        for r in sc["rows"]:
+            try:
+                nums.append(float(r[oi_]))
+            except ValueError:
+                pass
+        distinct = len(set(nums)) == len(nums)
     if distinct and _delay_collision(W, sc, texts):
         # a Delay-shifted group lands on another row's (effective) time: the validator merges them before the
         # full-string checks (the statement's "temporal issues"), so only the superset rule applies to this file
@@ -558,8 +582,14 @@ def _check_rows(W, sc, inp, issues, header_adj, viol, probe):
                              "cell-error-missing-or-mislabelled-%s" % code)
                         return
             continue
-        if not distinct and "onset" in cols:
-            # the file has tied or non-numeric onsets: rows on the time line may be merged with others, but a row WITHOUT a
+        own_numeric = True
+        if "onset" in cols:
+            try:
+                float(sc["rows"][ri][cols.index("onset")])
+            except ValueError:
+                own_numeric = False
+        if "onset" in cols and (not distinct or not own_numeric):
+            # the file has tied onsets, or this row has no numeric onset: rows on the time line may be merged with others, but a row WITHOUT a
             # numeric onset is not on the time line - it is judged on its own like any other row
             own = sc["rows"][ri][cols.index("onset")]
             try:
@@ -593,7 +623,7 @@ def _delay_collision(W, sc, texts):
         try:
             t0 = float(r[oi])
         except ValueError:
-            return True
+            continue          # a row without a time cannot collide with anything
         times.append(t0)
         if "delay/" in txt.lower():
             try:
